@@ -213,10 +213,10 @@ def _copy_reused_symbolic_values(
           return v.clone()
         seen.add(id(v))
       return v
-    if type(v) is list:  # pylint: disable=unidiomatic-typecheck
+    if isinstance(v, list):
       items = [_visit(x) for x in v]
       return items if any(a is not b for a, b in zip(items, v)) else v
-    if type(v) is dict:  # pylint: disable=unidiomatic-typecheck
+    if isinstance(v, dict):
       items = {k: _visit(x) for k, x in v.items()}
       return items if any(items[k] is not v[k] for k in v) else v
     return v
